@@ -192,6 +192,22 @@ def _data_of(res, name, case):
 
 
 def run_case(case, seed):
+    """library exceptions become keyed findings that keep the non-trivial tags collected so far"""
+    import traceback
+    keys = []
+    try:
+        return _run_case(case, seed, keys)
+    except Exception as e:
+        tb = traceback.format_exc()
+        site = [ln.strip() for ln in tb.splitlines() if "wannierberri/" in ln]
+        where = site[-1].split("wannierberri/")[-1].split(",")[0].strip('"') if site else "harness"
+        return {"ok": False, "key": f"exception:{type(e).__name__}:{where}",
+                "detail": f"{case}: {type(e).__name__}: {e}", "traceback": tb[-2000:],
+                "nontrivial": keys or [("raised", case["sys"], tuple(case["N"]), case["fam"], case["variant"],
+                                        tuple(case["calcs"]))]}
+
+
+def _run_case(case, seed, keys):
     from wbmc import gridrun as G
     from wannierberri.calculators import TabulatorAll, tabulate
     from wannierberri.fourier import fft as wbfft
@@ -203,7 +219,6 @@ def run_case(case, seed):
     facts = G.factorisations(N)
     (div0, fft0) = facts[0]
     nfft_rec = np.array(system.NKFFT_recommended)
-    keys = []
     worst = {}
     with G.case_tmpdir() as tmp:
         calcs = _build_calcs(case, flags)
